@@ -639,7 +639,7 @@ Theorem rpc_faithful auth mode md calls h t :
   all_bytes (user_pairs md calls) -> all_bytes (pairs_of h) -> all_bytes (pairs_of t) ->
   rpc auth mode md calls h t = expect_ok auth md calls h t.
 Proof.
-  intros Hv Hh Hvh Hvt Hb Hbh Hbt. unfold rpc, expect_ok.
+  intros Hv Hh Hvh Hvt Hb Hbh Hbt. unfold rpc, rpc_sent, expect_ok.
   rewrite valid_user_validate_out, Hv. cbn [negb].
   destruct (srv_request auth md calls Hv Hh Hb) as [-> ->].
   rewrite Hvh. cbn [negb]. rewrite andb_false_r.
@@ -659,7 +659,7 @@ Theorem stream_header_refused auth mode md calls h t :
     [13; 1; 1; 13] ++ dump (transport_md auth ++ group (visible (user_pairs md calls)))
                    ++ dump [] ++ dump [(n_content_type, [ct_grpc])].
 Proof.
-  intros Hv Hh Hb Hm Hvh. unfold rpc.
+  intros Hv Hh Hb Hm Hvh. unfold rpc, rpc_sent.
   rewrite valid_user_validate_out, Hv. cbn [negb].
   destruct (srv_request auth md calls Hv Hh Hb) as [-> ->].
   rewrite Hvh. destruct (Z.eqb_spec mode 0); [contradiction|]. reflexivity.
@@ -805,20 +805,28 @@ Definition rpcop_ok (o : rpcop) : bool :=
   all_bytes_b (user_pairs (o_md o) (o_calls o)) && all_bytes_b (pairs_of (o_h o)) &&
   all_bytes_b (pairs_of (o_t o)) && negb (has_hop (o_md o) (o_calls o)) &&
   validate_md (o_h o) && validate_md (o_t o).
+(* pick metadata: the application's and the picker's metadata have no case-colliding base
+   keys, and when both are valid the merged metadata is a well-formed op-1 input (valid, no
+   hop-by-hop names, byte strings) *)
+Definition pick_ok (o : rpcop) (p : mdt) : bool :=
+  nodupb (map lower (keys (o_md o))) &&
+  (if valid_user (o_md o) (o_calls o) && validate_md p
+   then let m := pick_merged (o_md o) (o_calls o) p in
+        valid_user m [] && rpcop_ok (mkop (o_mode o) m [] (o_h o) (o_t o))
+   else true).
 Definition op_wf (w : word) : bool :=
   match decode_op w with
   | Some o => rpcop_ok o
-  | None => match decode_raw w with Some extra => raw_plain extra | None => false end
+  | None => match decode_raw w with
+            | Some extra => raw_plain extra
+            | None => match decode_pick w with Some (o, p) => pick_ok o p | None => false end
+            end
   end.
 
-Lemma clause_op_model auth i w : op_wf w = true ->
-  exists ob, run_op auth w = Some ob /\ snd (clause_op auth i w ob) = true.
+Lemma clause_rpc_model auth i o : rpcop_ok o = true ->
+  snd (clause_rpc auth i o (rpc auth (o_mode o) (o_md o) (o_calls o) (o_h o) (o_t o))) = true.
 Proof.
-  unfold op_wf, run_op, clause_op. destruct (decode_op w) as [o|].
-  2:{ destruct (decode_raw w) as [extra|]; [|discriminate]. intro H.
-      eexists; split; [reflexivity|]. cbn [snd]. rewrite H, (raw_faithful auth extra H). apply word_eqb_refl. }
-  intro H. unfold rpcop_ok in H. repeat (apply andb_true_iff in H as [H ?]).
-  eexists; split; [reflexivity|].
+  intro H. unfold rpcop_ok in H. repeat (apply andb_true_iff in H as [H ?]). unfold clause_rpc.
   destruct (valid_user (o_md o) (o_calls o)) eqn:Hv; cbn [negb].
   - assert (Hh: has_hop (o_md o) (o_calls o) = false) by (apply negb_true_iff; assumption).
     rewrite Hh. match goal with Ha : validate_md (o_h o) = true, Hb : validate_md (o_t o) = true |- _ => rewrite Ha, Hb end.
@@ -826,6 +834,43 @@ Proof.
     rewrite rpc_faithful by (try assumption; apply all_bytes_b_spec; assumption).
     apply word_eqb_refl.
   - rewrite rpc_invalid_rejected by exact Hv. reflexivity.
+Qed.
+
+(* with valid application and pick metadata, the RPC is the op-1 RPC of the merged metadata *)
+Lemma rpc_pick_merged auth mode md calls h t p :
+  NoDup (map lower (keys md)) -> valid_user md calls = true -> validate_md p = true ->
+  valid_user (pick_merged md calls p) [] = true ->
+  rpc_pick auth mode md calls h t p = rpc (pick_auth auth p) mode (pick_merged md calls p) [] h t.
+Proof.
+  intros Hn Hv Hp Hm. unfold rpc_pick, rpc, pick_auth.
+  rewrite (valid_user_validate_out (pick_merged md calls p) []), Hm.
+  rewrite valid_user_validate_out, Hv, Hp. cbn [negb map].
+  unfold pick_merged. rewrite lowered_keys in Hn.
+  rewrite (from_out_spec md (map lowkv calls) Hn), spec_md_lowkv. reflexivity.
+Qed.
+
+Lemma rpc_pick_invalid auth mode md calls h t p :
+  valid_user md calls && validate_md p = false -> rpc_pick auth mode md calls h t p = fail_obs 13 0 [].
+Proof.
+  intro H. unfold rpc_pick. rewrite valid_user_validate_out.
+  destruct (valid_user md calls); [|reflexivity]. cbn [andb negb] in *. rewrite H. reflexivity.
+Qed.
+
+Lemma clause_op_model auth i w : op_wf w = true ->
+  exists ob, run_op auth w = Some ob /\ snd (clause_op auth i w ob) = true.
+Proof.
+  unfold op_wf, run_op, clause_op. destruct (decode_op w) as [o|].
+  { intro H. eexists; split; [reflexivity|]. apply clause_rpc_model, H. }
+  destruct (decode_raw w) as [extra|].
+  { intro H. eexists; split; [reflexivity|]. cbn [snd]. rewrite H, (raw_faithful auth extra H). apply word_eqb_refl. }
+  destruct (decode_pick w) as [[o p]|]; [|discriminate]. intro H.
+  eexists; split; [reflexivity|].
+  unfold pick_ok in H. apply andb_true_iff in H as [Hn H]. apply nodupb_NoDup in Hn.
+  destruct (valid_user (o_md o) (o_calls o) && validate_md p) eqn:Hv; cbn [negb].
+  - apply andb_true_iff in H as [Hm Hok]. apply andb_true_iff in Hv as [Hv Hp].
+    rewrite (rpc_pick_merged auth _ _ _ _ _ _ Hn Hv Hp Hm).
+    apply (clause_rpc_model (pick_auth auth p) i _ Hok).
+  - rewrite (rpc_pick_invalid _ _ _ _ _ _ _ Hv). reflexivity.
 Qed.
 
 Lemma model_trace_from auth ops : forall i, forallb op_wf ops = true ->
